@@ -234,40 +234,82 @@ def grep_forbidden():
 # running implementation and model on case files
 
 
-def _run_lines(binary, mode, lines, timeout, nproc=None, extra_env=None):
+def _run_lines(binary, mode, lines, timeout, nproc=None, extra_env=None, stall=None):
     """feeds `lines` (list of str, each starting with a unique id) to `binary mode`, in parallel
-    chunks; returns dict id -> rest of the answer line. Cases without an answer (crash / hang
-    of a chunk) get 'noanswer'."""
+    chunks; returns dict id -> rest of the answer line. The binaries answer one line per case, in order, flushed.
+    A chunk that stops answering for `stall` seconds (a hang) or whose process dies (an abort) is cut at the first
+    unanswered case: that case gets 'noanswer' and the rest of the chunk is fed to a fresh process, so that one
+    hanging input costs `stall` seconds and is identified exactly."""
     if not lines:
         return {}
+    import threading
+    import time as _time
     nproc = nproc or min(NCPU, max(1, len(lines) // 50))
     chunks = [lines[i::nproc] for i in range(nproc)]
-    procs = []
     e = dict(os.environ)
     if extra_env:
         e.update(extra_env)
-    for ch in chunks:
-        p = subprocess.Popen([binary, mode], stdin=subprocess.PIPE, stdout=subprocess.PIPE,
-                             stderr=subprocess.DEVNULL, env=e)
-        procs.append((p, ch))
-    import threading
+    stall = stall if stall is not None else min(timeout, 30)
     res = {}
+    lock = threading.Lock()
 
-    def feed(p, ch):
-        data = ("\n".join(ch) + "\n").encode()
-        try:
-            out, _ = p.communicate(data, timeout=timeout)
-        except subprocess.TimeoutExpired:
-            p.kill()
-            out, _ = p.communicate()
-        for l in out.decode("utf-8", "replace").splitlines():
-            sp = l.split(" ", 1)
-            if len(sp) == 2:
-                res[sp[0]] = sp[1]
-            elif len(sp) == 1 and sp[0]:
-                res[sp[0]] = ""
+    def run_chunk(ch):
+        todo = list(ch)
+        t_end = _time.time() + timeout
+        restarts = 0
+        while todo:
+            p = subprocess.Popen([binary, mode], stdin=subprocess.PIPE, stdout=subprocess.PIPE,
+                                 stderr=subprocess.DEVNULL, env=e)
+            state = {"last": _time.time(), "n": 0}
 
-    ths = [threading.Thread(target=feed, args=pc) for pc in procs]
+            def writer():
+                try:
+                    p.stdin.write(("\n".join(todo) + "\n").encode())
+                    p.stdin.close()
+                except (BrokenPipeError, OSError, ValueError):
+                    pass
+
+            def reader():
+                for raw in p.stdout:
+                    l = raw.decode("utf-8", "replace").rstrip("\n")
+                    sp = l.split(" ", 1)
+                    with lock:
+                        if len(sp) == 2:
+                            res[sp[0]] = sp[1]
+                        elif len(sp) == 1 and sp[0]:
+                            res[sp[0]] = ""
+                    state["last"] = _time.time()
+                    state["n"] += 1
+
+            tw = threading.Thread(target=writer, daemon=True)
+            tr = threading.Thread(target=reader, daemon=True)
+            tw.start()
+            tr.start()
+            while tr.is_alive():
+                tr.join(0.25)
+                now = _time.time()
+                if tr.is_alive() and (now - state["last"] > stall or now > t_end):
+                    p.kill()
+                    tr.join(5)
+                    break
+            try:
+                p.kill()
+            except OSError:
+                pass
+            p.wait()
+            with lock:
+                rest = [l for l in todo if l.split(" ", 1)[0] not in res]
+            if not rest:
+                break
+            # the first unanswered case is the one the process hung or died on
+            with lock:
+                res[rest[0].split(" ", 1)[0]] = "noanswer"
+            todo = rest[1:]
+            restarts += 1
+            if _time.time() > t_end or restarts > 200:
+                break
+
+    ths = [threading.Thread(target=run_chunk, args=(ch,)) for ch in chunks]
     for t in ths:
         t.start()
     for t in ths:
@@ -279,12 +321,12 @@ def _run_lines(binary, mode, lines, timeout, nproc=None, extra_env=None):
     return res
 
 
-def run_impl(mode, lines, timeout=600, nproc=None):
-    return _run_lines(HARNESS_BIN, mode, lines, timeout, nproc)
+def run_impl(mode, lines, timeout=600, nproc=None, stall=None):
+    return _run_lines(HARNESS_BIN, mode, lines, timeout, nproc, stall=stall)
 
 
-def run_model(mode, lines, timeout=600, nproc=None):
-    return _run_lines(MODEL_BIN, mode, lines, timeout, nproc)
+def run_model(mode, lines, timeout=600, nproc=None, stall=None):
+    return _run_lines(MODEL_BIN, mode, lines, timeout, nproc, stall=stall)
 
 
 def env_tables(inputs):
